@@ -79,6 +79,8 @@ KINDS = ["count", "scalar", "gradient", "gradient_c"]
 RT_FORMATS = ["raw_text", "raw_bin", "restart_text", "restart_bin", "multicol_stream", "multicol_file",
               "multicol_ctor", "multicol_add"]
 ALL_FORMATS = RT_FORMATS + ["opendx", "restart_default"]
+SAMPLE_PLAN = [("count", "restart_text"), ("scalar", "multicol_ctor"), ("gradient", "raw_text"),
+               ("gradient_c", "restart_bin"), ("count", "multicol_add"), ("gradient_c", "multicol_file")]
 TEXT_GEOMETRY = ("restart_text", "restart_bin", "multicol_ctor")
 DYW = [0.125, 0.25, 0.375, 0.5, 0.75, 1.0, 1.5, 2.0, 3.0]
 U = 2.0 ** -53
@@ -358,8 +360,8 @@ def check_roundtrip(case, O, ev, wd):
         g = geometry_diff(case, fmt, O["cgeom"], ev["cgeom"], "count grid: ")
     if g is not None:
         what, text = g
-        if case["shape"] == "noncomm" and what in ("nx", "upper", "periodic"):
-            what += "_noncomm"
+        if case["shape"] == "noncomm" and what in ("nx", "upper", "periodic") and " entries for " not in text:
+            what += "_noncomm"      # a value differs (not: is missing) on a shape the library had to adjust
         if fmt == "restart_text" and ev["x"]["file"]:
             text += "; parameter block written: " + " | ".join(
                 l.strip() for l in head_of(os.path.join(wd, ev["x"]["file"])).splitlines()[1:6])
@@ -578,7 +580,7 @@ class _State:
     def __init__(self):
         self.shapes = set()
         self.by_key = {}
-        self.nsample = 0
+        self.sampled = set()
 
 
 def _violate(c, st, case, flavour, key, text, wd, path, files=()):
@@ -662,8 +664,8 @@ def evaluate(c, st, flavour, case, events, fail, wd, path):
                 rg = ev["geom"]
                 if list(rg.get("hardl", [])) != list(og["hardl"]) or list(rg.get("hardu", [])) != list(og["hardu"]):
                     c.bump("observed_hard_boundary_flags_not_carried_" + fmt)
-                if st.nsample < 4 and fmt in ("restart_text", "multicol_file", "raw_bin", "multicol_add"):
-                    st.nsample += 1
+                if len(st.sampled) < len(SAMPLE_PLAN) and (kind, fmt) == SAMPLE_PLAN[len(st.sampled)]:
+                    st.sampled.add((kind, fmt))
                     c.sample(dict(roundtrip=fmt, kind=kind, sizes=og["nx"], periodic=P, shape=case["shape"],
                                   geometry=case["gclass"], data=case["dclass"], custom_grid_block=case["custom"],
                                   flavour=flavour, verdict="held"), cap=40)
@@ -713,7 +715,7 @@ def evaluate(c, st, flavour, case, events, fail, wd, path):
 def plan(c, tier):
     rng = c.rng
     th = tier == "thorough"
-    n = 1150 if th else 46
+    n = 1250 if th else 46
     cases = [gen_case(rng, i) for i in range(n)]
     nlarge = 8 if th else 1
     for k in range(nlarge):
